@@ -1498,6 +1498,76 @@ Theorem C02_multi_known_keeps_current :
     Some (LoadsMultiObjStm.g_ehere st a tops p pos n).
 Proof. exact LoadsMultiObjStm.known_keeps_current. Qed.
 
+(* for ref_write_multi itself: once a part's mp_nums names top-level objects only (the objects outside object streams, and the
+   containers: [LoadsMultiObjStm.multi_tops]), the writer's own checks make the parts define DISJOINT sets
+   (C02_multi_defs_disjoint: top-level objects placed once, cross-reference stream numbers distinct from every object, members of
+   different containers distinct, containers of different parts different), and then EVERY number a part defines -- top-level
+   object, cross-reference stream, member -- ends with the entry that part wrote, at the position the part has in the file
+   ([pos_at ... (length pre)]: the k-th part starts where the writer's state puts it) *)
+Theorem C02_multi_defs_disjoint :
+  forall (st : fstyle) (parts : list mpart) (a : adoc) (file : bytes),
+    ref_write_multi st parts a = Some file ->
+    (forall p n, In p parts -> In n (mp_nums p) ->
+       In n (map (fun t : LoadsTableProofs.top => fst (fst (fst t))) (LoadsMultiObjStm.multi_tops st a))) ->
+    NoDup (flat_map (LoadsMultiObjStm.defs st) parts).
+Proof. exact LoadsMultiObjStm.multi_defs_nodup. Qed.
+
+Theorem C02_multi_known_current_file :
+  forall (st : fstyle) (parts : list mpart) (a : adoc) (file : bytes) (pre : list mpart) (p : mpart) (post : list mpart) (n : N),
+    ref_write_multi st parts a = Some file ->
+    (forall q m, In q parts -> In m (mp_nums q) ->
+       In m (map (fun t : LoadsTableProofs.top => fst (fst (fst t))) (LoadsMultiObjStm.multi_tops st a))) ->
+    parts = pre ++ p :: post -> In n (LoadsMultiObjStm.defs st p) ->
+    LoadsMultiObjStm.g_here st a (LoadsMultiObjStm.multi_tops st a) p
+      (LoadsMultiObjStm.pos_at st a (LoadsMultiObjStm.multi_tops st a) parts
+         (N.of_nat (length (RefWriter.header st (a_version a)))) None [] 0 (length pre)) n = true ->
+    lookup_entry (LoadsMultiObjStm.final_known st a (LoadsMultiObjStm.multi_tops st a) parts
+                    (N.of_nat (length (RefWriter.header st (a_version a)))) None [] 0) n =
+    Some (LoadsMultiObjStm.g_ehere st a (LoadsMultiObjStm.multi_tops st a) p
+            (LoadsMultiObjStm.pos_at st a (LoadsMultiObjStm.multi_tops st a) parts
+               (N.of_nat (length (RefWriter.header st (a_version a)))) None [] 0 (length pre)) n).
+Proof. exact LoadsMultiObjStm.multi_known_current. Qed.
+
+(* non-vacuity on a file of TWO parts with an object stream: part 1 = the object stream 20 (members 4, 7, 5), stream 3 whose Length
+   is the member 4, a SUPERSEDED definition of object 9, cross-reference stream 21; part 2 = the current object 9, cross-reference
+   stream 22 that lists member 7 and object 3 AGAIN.  The hypotheses of C02_multi_members_named_file / C02_multi_known_current_file
+   hold; the writer's final table names the members in container 20 (the relisted 7 included), object 9 in part 2 (not the superseded
+   definition at its offset in part 1), object 3 in part 1; and the loader model delivers exactly that: the current 9, member 7,
+   stream 3 with its five bytes (deferred Length through a member, ACROSS parts) -- the case the missing theorem is about *)
+Definition ex_xs_22 : xsstyle :=
+  {| xs_id := 22; xs_w := (1%nat, 2%nat, 1%nat); xs_secs := []; xs_omit_index := false;
+     xs_filter := SfNone; xs_array := false; xs_istyle := default_istyle |}.
+Definition ex_parts_os2 : list mpart :=
+  [ {| mp_nums := [3; 20]; mp_old := [(9, OInt 1)]; mp_relist := []; mp_order := [20; 9; 3]; mp_xref := XStream ex_xs_os;
+       mp_sx := (ECRLF, 1%nat, 2%nat, ECR, Some ELF) |};
+    {| mp_nums := [9]; mp_old := []; mp_relist := [7; 3]; mp_order := []; mp_xref := XStream ex_xs_22;
+       mp_sx := (ELF, 0%nat, 0%nat, ELF, Some ELF) |} ].
+Theorem C02_example_multi_members_named :
+  ref_write_multi ex_fstyle_os ex_parts_os2 ex_adoc_os <> None /\
+  (forall p n, In p ex_parts_os2 -> In n (mp_nums p) ->
+     In n (map (fun t : LoadsTableProofs.top => fst (fst (fst t))) (LoadsMultiObjStm.multi_tops ex_fstyle_os ex_adoc_os))) /\
+  (forall p n, In p ex_parts_os2 -> In n (mp_nums p) -> ~ In n (compressed_nums ex_fstyle_os)) /\
+  map (lookup_entry (LoadsMultiObjStm.final_known ex_fstyle_os ex_adoc_os (LoadsMultiObjStm.multi_tops ex_fstyle_os ex_adoc_os) ex_parts_os2
+                       (N.of_nat (length (RefWriter.header ex_fstyle_os (a_version ex_adoc_os)))) None [] 0)) [4; 7; 5; 9; 3] =
+  [Some (SComp 20 0); Some (SComp 20 1); Some (SComp 20 2); Some (SInUse 590 0); Some (SInUse 310 2)] /\
+  match LoaderExt.load_ext LoadsFilterProofs.decompress_ref LoadsFilterProofs.can_ref
+          (match ref_write_multi ex_fstyle_os ex_parts_os2 ex_adoc_os with Some f => f | None => [] end) with
+  | LOk d _ => lookup (d_objects d) (9, 0) = Some (OStr (bs "top") true) /\
+               lookup (d_objects d) (7, 0) = Some (ODict [(bs "K", OArr [ORef 1 0; OStr (bs "a") false])]) /\
+               lookup (d_objects d) (3, 2) = Some (OStream [(bs "Length", OInt 5)] (bs "a(b" ++ [x0d; x0a]))
+  | _ => False
+  end.
+Proof.
+  split; [vm_compute; discriminate|]. split.
+  { assert (E : map (fun t : LoadsTableProofs.top => fst (fst (fst t))) (LoadsMultiObjStm.multi_tops ex_fstyle_os ex_adoc_os) = [3; 9; 20])
+      by (vm_compute; reflexivity).
+    rewrite E. intros p n [<-|[<-|[]]] Hn; simpl in Hn; simpl; intuition. }
+  split.
+  { assert (E : compressed_nums ex_fstyle_os = [4; 7; 5]) by reflexivity.
+    rewrite E. intros p n [<-|[<-|[]]] Hn K; simpl in Hn, K; intuition (subst; discriminate). }
+  split; [vm_compute; reflexivity|]. vm_compute. repeat split; reflexivity.
+Qed.
+
 (* [part_dom] is NEEDED, and C02_loads_multi_partial as it stands (no domain) is FALSE: write_parts accepts a superseded
    definition (mp_old) when a later part's mp_nums merely NAMES the number, and does not ask that the later part holds a
    definition.  Three parts: part 1 holds the object stream 20 with member 7 (a dictionary); part 2 holds a "superseded" top-level
@@ -1506,9 +1576,6 @@ Proof. exact LoadsMultiObjStm.known_keeps_current. Qed.
    correspondence, lopdf) correctly delivers the integer 1 -- the file does NOT define [content a].  A defect of the reference
    writer's style space (Spec/RefWriter.v), not of lopdf; props/c02.py never draws it (a part's numbers are drawn from the
    top-level objects).  The domain of the theorem to come must contain [part_dom]. *)
-Definition ex_xs_22 : xsstyle :=
-  {| xs_id := 22; xs_w := (1%nat, 2%nat, 1%nat); xs_secs := []; xs_omit_index := false;
-     xs_filter := SfNone; xs_array := false; xs_istyle := default_istyle |}.
 Definition ex_parts_bad : list mpart :=
   [ {| mp_nums := [3; 9; 20]; mp_old := []; mp_relist := []; mp_order := [20; 3]; mp_xref := XStream ex_xs_os;
        mp_sx := (ECRLF, 1%nat, 2%nat, ECR, Some ELF) |};
@@ -1696,6 +1763,9 @@ Print Assumptions C02_multi_members_named.
 Print Assumptions C02_multi_members_named_file.
 Print Assumptions C02_multi_known_untouched.
 Print Assumptions C02_multi_known_keeps_current.
+Print Assumptions C02_multi_defs_disjoint.
+Print Assumptions C02_multi_known_current_file.
+Print Assumptions C02_example_multi_members_named.
 Print Assumptions C02_full_all_partial.
 Print Assumptions C02_loads_multi_partial_needs_domain.
 Print Assumptions C02_example_loads_table.
